@@ -2,7 +2,7 @@
 import jsl
 import oracles
 import slices
-from framework import PropertyCheck
+from framework import PropertyCheck, Scenario
 
 
 class Check(PropertyCheck):
@@ -44,12 +44,17 @@ class Check(PropertyCheck):
             if _i % 15 == 6:
                 yield slices.stale_ready_scenario(rng)
                 continue
-            yield slices.dispatch_scenario(rng, observers=True, with_invalid=True, replay=True, queries=True,
+            if _i % 15 == 10:
+                yield Scenario(["new", f"mark raiser {rng.randint(0, 10**6)}"], {"family": "raiser", "accepted": 3, "style": "raiser"})
+                continue
+            yield slices.dispatch_scenario(rng, observers=True, peeks=True, with_invalid=True, replay=True, queries=True,
                                            max_jobs=4 if tier == "quick" else 5,
                                            max_ops=4 if tier == "quick" else 6)
 
     def oracle(self, impl, scenario, index, line, out, ctx):
         res = []
+        if line.startswith("mark raiser"):
+            return oracles.raiser_episode(int(line.split()[2]))["C02"]
         d = impl.dispatcher
         if line.startswith("inst"):
             ctx["hobs"] = None
